@@ -3,11 +3,6 @@
    ("conc ...") replay the implementation's scheduler trace on the extracted interleaving
    model (trace acceptance, ocaml/vsacc.ml.inc) and print the model's own summary. *)
 let pat seed i = (seed * 31 + i * 7 + (i lsr 8) * 13 + 1) land 0xff
-let pow2_lines nbytes =
-  let lines = (nbytes + 63) / 64 in
-  let n = ref 1 in
-  while !n < lines do n := !n * 2 done; !n
-
 let state_str (h : harness) =
   let s = h.hr in
   Printf.sprintf " | %s %s %s" (string_of_z s.wcur) (string_of_z s.rcur) (string_of_z s.crem)
@@ -24,10 +19,11 @@ let handle_seq (first : string list) (rest : string list) : unit =
      let nbytes = (try int_of_string nb with _ -> 0) in
      if nbytes < 1 || nbytes > (1 lsl 24) then print_endline "open bad"
      else begin
-       let n = pow2_lines nbytes in
-       let h = hinit (z_of_int n) in
+       (* the ring as muggle_shm_ringbuf_open sizes it (extracted open_sizes): lines, data bytes, segment bytes *)
+       let ((n, data), total) = open_sizes (z_of_int nbytes) in
+       let h = hopen (z_of_int nbytes) in
        st := Some h;
-       Printf.printf "open %d %d 1%s\n" n (n * 64) (state_str h)
+       Printf.printf "open %s %s 1 %s %s%s\n" (string_of_z n) (string_of_z data) (string_of_z total) (string_of_z total) (state_str h)
      end
    | _ -> print_endline "open bad");
   List.iter (fun l ->
@@ -44,6 +40,12 @@ let handle_seq (first : string list) (rest : string list) : unit =
           | RAlloc (Some off) -> Printf.printf "alloc %s%s\n" (string_of_z off) (state_str h')
           | RAlloc None -> Printf.printf "alloc NULL%s\n" (state_str h')
           | _ -> Printf.printf "alloc skip%s\n" (state_str h'))
+       | "alloccl" :: _ ->
+         let (h', r) = exec (OAllocCl (z_of_int (num 1), z_of_int (num 2))) in
+         (match r with
+          | RAlloc (Some off) -> Printf.printf "alloccl %s%s\n" (string_of_z off) (state_str h')
+          | RAlloc None -> Printf.printf "alloccl NULL%s\n" (state_str h')
+          | _ -> Printf.printf "alloccl skip%s\n" (state_str h'))
        | "write" :: _ ->
          let at = num 1 and len = num 2 and seed = num 3 in
          if len < 0 || len > 65536 then Printf.printf "write skip%s\n" (state_str h)   (* longer than any ring of the quantifier: outside every allocation *)
@@ -78,13 +80,15 @@ let params_of = function
       mo_r_load_w = mo_of_string d; mo_r_store_wrap = mo_of_string e; mo_r_store_move = mo_of_string f;
       mo_lock_tas = mo_of_string g; mo_lock_clear = mo_of_string h }
   | _ -> sc_params
-let cell_id = function "wcur" -> 0 | "rcur" -> 1 | "wlock" -> 2 | "ridle" -> 3 | "wretry" -> 4 | "-" -> 0 | _ -> 99
+let cell_id = function "wcur" -> 0 | "rcur" -> 1 | "wlock" -> 2 | "ridle" -> 3 | "wretry" -> 4
+                       | "ready" -> 5 | "magic" -> 6 | "apoll" -> 7 | "-" -> 0 | _ -> 99
 let choice_of _ _ _ _ = 0
 let note_of text =
   match words text with
   | [k; v] ->
     let code = (match k with "sent" -> 1 | "full" -> 2 | "drop" -> 3 | "wdone" -> 4 | "glen" -> 5 | "goff" -> 6
-                           | "gtag" -> 7 | "idle" -> 8 | "rdone" -> 9 | _ -> 99) in
+                           | "gtag" -> 7 | "idle" -> 8 | "rdone" -> 9
+                           | "created" -> 10 | "geo" -> 11 | "notready" -> 12 | "gaveup" -> 13 | _ -> 99) in
     (code, (try int_of_string v with _ -> 0))
   | _ -> (99, 0)
 let rec upto n = if n <= 0 then [] else upto (n - 1) @ [n - 1]
@@ -114,6 +118,7 @@ let parse_conc (cfg : string list) =
 let bad_state (st : csys) : string option =
   if int_of_nat st.c_uncov > 0 then Some "the reader reads a data line (header or payload) that its view does not cover: the writer's plain writes are not ordered before the read (stale header / payload possible)"
   else if int_of_nat st.c_overlap > 0 then Some "the writer stores into a line of a committed unread message"
+  else if int_of_nat st.c_rrace > 0 then Some "the writer stores into a line whose latest read by the reader was not published to it: the reader's store of read_cursor does not order its payload reads before the writer's reuse of the lines (torn delivery possible)"
   else None
 let explore_model (st0 : csys) (nthreads : int) (p : params) (seed : int) (runs : int) : unit =
   Random.init seed;
@@ -158,11 +163,65 @@ let handle_conc (lines : string list) : unit =
         (* the model's own ghost monitors must be quiet on an accepted trace *)
         if int_of_nat st.c_overlap > 0 then print_endline "M overlap";
         if int_of_nat st.c_uncov > 0 then print_endline "M uncovered-read (the reader's view does not cover a line it read under the extracted memory orders)";
+        if int_of_nat st.c_rrace > 0 then print_endline "M unpublished-read-overwritten (the writer reuses a line whose latest read by the reader is not ordered before the store under the extracted memory orders)";
         let rec is_prefix a b = match a, b with
           | [], _ -> true | x :: a', y :: b' -> x = y && is_prefix a' b' | _ -> false in
         if not (is_prefix st.c_delivered st.c_committed) then print_endline "M delivered-not-prefix-of-committed"
       end
     end
+(* ---- the ready hand-over (attach scenario): trace acceptance on the extracted ModelAttach ---- *)
+let sc_ap = { mo_open_store_ready = SeqCst; mo_ready_load = SeqCst; mo_magic_load = SeqCst }
+let ap_of = function
+  | [a; b; c] -> { mo_open_store_ready = mo_of_string a; mo_ready_load = mo_of_string b; mo_magic_load = mo_of_string c }
+  | _ -> sc_ap
+let handle_attach (lines : string list) : unit =
+  let rec split acc = function
+    | "TRACE" :: rest -> (List.rev acc, rest)
+    | x :: rest -> split (x :: acc) rest
+    | [] -> (List.rev acc, []) in
+  let (cfg, trace) = split [] lines in
+  let nbytes = ref 0 and tries = ref 1 and prm = ref sc_ap and explore = ref None in
+  List.iter (fun l -> match words l with
+    | "attach" :: a :: rest -> nbytes := (try int_of_string a with _ -> 0);
+      (match rest with b :: _ -> tries := max 1 (try int_of_string b with _ -> 1) | _ -> ())
+    | "aparams" :: ps -> prm := ap_of ps
+    | ["explore"; sd; runs] -> explore := Some (int_of_string sd, int_of_string runs)
+    | _ -> ()) cfg;
+  if !nbytes < 1 then print_endline "F badcase" else begin
+    let ((n, _), _) = open_sizes (z_of_int !nbytes) in
+    let st0 = ainit n (nat_of_int !tries) in
+    match !explore with
+    | Some (sd, runs) ->
+      (* random walks of the model under the extracted orders, looking for an uncovered geometry read *)
+      Random.init sd;
+      let found = ref false and r = ref 0 in
+      while not !found && !r < runs do
+        incr r;
+        let st = ref st0 and sched = ref [] and k = ref 0 in
+        while not !found && !k < 200 do
+          incr k;
+          let t = Random.int 2 in
+          (match astep !prm !st (nat_of_int t) O with
+           | Some (s', _) -> st := s'; sched := t :: !sched
+           | None -> ());
+          if int_of_nat !st.a_uncov > 0 then begin
+            found := true;
+            print_endline "FOUND an attaching process reads the ring geometry after muggle_shm_ringbuf_is_ready answered true although the creator's plain writes of it are not in its view: the store of ready / the load of it do not order them (uninitialised geometry possible)";
+            Printf.printf "modelsched %s\n" (String.concat " " (List.rev_map string_of_int !sched))
+          end
+        done
+      done;
+      if not !found then print_endline "NOTFOUND"
+    | None ->
+      let step = astep !prm in
+      let none_enabled st = step st O O = None && step st (S O) O = None in
+      let (st, ok) = accept_trace step st0 cell_id choice_of note_of none_enabled trace in
+      if ok then begin
+        Printf.printf "F attach n=%s ready=%s\n" (string_of_z st.a_geo) (string_of_z st.a_ready);
+        if int_of_nat st.a_uncov > 0 then print_endline "M uncovered-geometry-read (the attacher's view does not cover the geometry it read under the extracted memory orders)";
+        if List.exists (fun g -> g <> n) st.a_got then print_endline "M attacher-used-uninitialised-geometry"
+      end
+  end
 (*CONC-END*)
 
 let handle (lines : string list) : unit =
@@ -172,6 +231,7 @@ let handle (lines : string list) : unit =
     (match words l0 with
      | "ring" :: _ as w -> handle_seq w rest
      | "conc" :: _ -> handle_conc lines
+     | "attach" :: _ -> handle_attach lines
      | _ -> print_endline "?")
 
 let () = run_cases handle
